@@ -17,7 +17,10 @@ SimulationResponse is the like-named field of the computation; in swap the retur
 writes use the like-named fields (C07 covers the ledger side). S3: the direction tables: in the 3-pool's swap,
 simulation and reverse simulation every branch guarded by ask == pools[i] and offer == pools[j] assigns ask_pool =
 pools[i], offer_pool = pools[j], unswapped = pools[k] with {i,j,k} = {0,1,2}; all six (i,j) occur; the three functions
-have the same table; the pair's two-branch analogue including the decimals indices. S4: vault get_share and withdraw compute
+have the same table; the pair's two-branch analogue including the decimals indices. The tables are DECIDED, not located:
+truth values are assigned to the asset-equality tests, the function is walked under each assignment and the pools index of
+each role argument is read from provenance restricted to the walked blocks; an asset equal to none of the pools reaches no
+pricing call. S4: vault get_share and withdraw compute
 Decimal::from_ratio(amount, total_share) * (balance - pending fees) from the same classes of operands. S5: the router's
 simulate_swap_operations feeds each hop's return_amount into the next hop's offer amount.
 """
